@@ -295,7 +295,7 @@ def run_history(w, hist_index: int) -> None:
 
 
 def run(w) -> None:
-    n = 6000 if w.tier == "thorough" else 320
+    n = 20000 if w.tier == "thorough" else 800
     for i in range(n):
         if i % w.nshards != w.shard:
             continue
